@@ -208,7 +208,7 @@ func genDropReference(repo string) error {
 	}
 	ref := dropRef{Note: "per function of the reference tree: calls with an effect and struct fields assigned; generated by `bbcheck -gen-reference`, never written by a check", Calls: map[string][]string{}, Fields: map[string][]string{}, Params: map[string][]string{}, Must: map[string][]string{}}
 	for _, rel := range allDropPkgs() {
-		for _, tf := range p.pkgFuncs(rel) {
+		for _, tf := range p.srcFuncs(rel) {
 			if tf.Object() != nil {
 				ref.Funcs = append(ref.Funcs, tf.Object().(*types.Func).FullName())
 			}
@@ -277,14 +277,14 @@ func runDropDrift(c *Ctx, pkgs []string) {
 	}
 	existing := map[string]bool{}
 	for _, rel := range allDropPkgs() {
-		for _, tf := range c.pkgFuncs(rel) {
+		for _, tf := range c.srcFuncs(rel) {
 			if tf.Object() != nil {
 				existing[tf.Object().(*types.Func).FullName()] = true
 			}
 		}
 	}
 	for _, rel := range pkgs {
-		for _, tf := range c.pkgFuncs(rel) {
+		for _, tf := range c.srcFuncs(rel) {
 			withAnon(tf, func(g *ssa.Function) {
 				fk := refKey(g)
 				if fk == "" {
